@@ -119,3 +119,21 @@ Proof.
       * split; split; try discriminate; try (intros [_ X]; congruence). intros [_ [_ [_ X]]]. apply bytes_eqb_spec in X. congruence.
     + split; split; try discriminate; try (intros [_ X]; congruence). intros [_ [_ [X _]]]. discriminate.
 Qed.
+
+(* two shreds the leader validly signed under DIFFERENT headers (slot, slice index or last flag) - whatever their
+   payloads and slice roots, in particular for the SAME slice root signed twice: each is reported as equivocation
+   against the other's cached commitment, never shortcut and never waved through as an invalid signature *)
+Theorem differently_headed_signed_shreds_equivocate : forall w1 w2,
+  validate_shred None w1 = SOk -> validate_shred None w2 = SOk ->
+  (w_slot w1 < 2 ^ 64)%N -> (w_slot w2 < 2 ^ 64)%N -> (w_slice w1 < 2 ^ 64)%N -> (w_slice w2 < 2 ^ 64)%N ->
+  (w_slot w1, w_slice w1, w_last w1) <> (w_slot w2, w_slice w2, w_last w2) ->
+  validate_shred (Some (shred_commitment w1)) w2 = SEquivocation.
+Proof.
+  intros w1 w2 H1 H2 B1 B2 B3 B4 Hne.
+  apply accepted_only_if_signed in H2. destruct H2 as [Hw [Hs Hm]].
+  apply (proj2 (cache_shortcuts_only_identical (shred_commitment w1) w2)).
+  split; [exact Hw|]. split; [|split; [exact Hs|exact Hm]].
+  intro E. unfold shred_commitment in E.
+  apply commitment_injective in E; try assumption.
+  destruct E as [E1 [E2 [E3 _]]]. apply Hne. rewrite E1, E2, E3. reflexivity.
+Qed.
